@@ -72,6 +72,8 @@ pub enum Op {
     Deallocate(usize, usize, bool),
     Truncate(usize),
     WriterAllocate(usize, usize, bool),
+    /// `BinArchiveWriter::allocate_at_end` with the cursor at the given position
+    WriterAllocateAtEnd(usize, usize),
     WriteString(usize, String),
     WritePointer(usize, usize),
     WriteCString(usize, String),
@@ -90,6 +92,7 @@ impl Op {
             Op::Deallocate(..) => "deallocate",
             Op::Truncate(..) => "truncate",
             Op::WriterAllocate(..) => "writer.allocate",
+            Op::WriterAllocateAtEnd(..) => "writer.allocate_at_end",
             Op::WriteString(..) => "write_string",
             Op::WritePointer(..) => "write_pointer",
             Op::WriteCString(..) => "write_c_string",
@@ -101,7 +104,7 @@ impl Op {
         }
     }
     pub fn is_relocation(&self) -> bool {
-        matches!(self, Op::Allocate(..) | Op::AllocateAtEnd(..) | Op::Deallocate(..) | Op::Truncate(..) | Op::WriterAllocate(..))
+        matches!(self, Op::Allocate(..) | Op::AllocateAtEnd(..) | Op::Deallocate(..) | Op::Truncate(..) | Op::WriterAllocate(..) | Op::WriterAllocateAtEnd(..))
     }
 }
 
@@ -115,6 +118,18 @@ pub fn apply_real(a: &mut BinArchive, op: &Op) -> Result<(), String> {
         Op::Deallocate(x, n, ge) => a.deallocate(*x, *n, *ge),
         Op::Truncate(x) => a.truncate(*x),
         Op::WriterAllocate(pos, n, ge) => BinArchiveWriter::new(a, *pos).allocate(*n, *ge),
+        Op::WriterAllocateAtEnd(pos, n) => {
+            let before = a.size();
+            let mut w = BinArchiveWriter::new(a, *pos);
+            if w.size() != before || w.length() != before {
+                return Err(format!("writer.size() = {} / length() = {} on an archive of {} bytes", w.size(), w.length(), before));
+            }
+            w.allocate_at_end(*n);
+            if w.tell() != *pos || w.size() != before + n {
+                return Err(format!("writer.allocate_at_end({}) left the cursor at {} (was {}) and size() = {} (archive was {})", n, w.tell(), pos, w.size(), before));
+            }
+            Ok(())
+        }
         Op::WriteString(x, s) => a.write_string(*x, Some(s)),
         Op::WritePointer(x, t) => a.write_pointer(*x, Some(*t)),
         Op::WriteCString(x, s) => a.write_c_string(*x, s.clone()),
@@ -152,6 +167,10 @@ pub fn apply_model(m: &mut Content, op: &Op) -> Expect {
         }
         Op::Truncate(a) => {
             m.truncate(*a);
+            Expect::Accept
+        }
+        Op::WriterAllocateAtEnd(_, n) => {
+            m.allocate_at_end(*n);
             Expect::Accept
         }
         Op::WriterAllocate(pos, n, ge) => {
@@ -384,6 +403,8 @@ impl System for Sys {
             }
         }
         v.push(Op::WriterAllocate(size, 2, false));
+        v.push(Op::WriterAllocateAtEnd(0, 4));
+        v.push(Op::WriterAllocateAtEnd(size, 3));
         v.push(Op::WriterAllocate(size + 4, 2, true));
         if depth >= self.full_depth {
             return v;
